@@ -353,7 +353,7 @@ Qed.
    stay in agreement: same global data, same output (the same lines added to whatever the two sides had
    written before, o1 and o2; [] [] : the same output altogether), same input left. *)
 Theorem C01_statement_worlds_related : forall Bf1 Bf2,
-  (forall nm, ft_body Bf1 nm = ft_body Bf2 nm) ->
+  (forall nm, ft_body Bf1 nm = ft_body Bf2 nm) -> (forall nm, ft_arity Bf1 nm = ft_arity Bf2 nm) ->
   (forall nm body, ft_body Bf1 nm = Some body -> nobe Bf1 body = true) ->
   forall o1 o2 n t W1 W2 W1' r,
   wstmt t = true -> nobs Bf1 t = true -> wrel Bf1 Bf2 o1 o2 W1 W2 ->
@@ -366,7 +366,7 @@ Print Assumptions C01_statement_worlds_related.
    gives the statement a meaning with fuel n, Sem.eval returns it, and — with enough steps — Run returns
    the same value or error class and leaves a related world *)
 Theorem C01_statement_sem_vs_vm : forall Bf1 Bf2 t s s' v c m n env st W1' res,
-  (forall nm, ft_body Bf1 nm = ft_body Bf2 nm) ->
+  (forall nm, ft_body Bf1 nm = ft_body Bf2 nm) -> (forall nm, ft_arity Bf1 nm = ft_arity Bf2 nm) ->
   (forall nm body, ft_body Bf1 nm = Some body -> nobe Bf1 body = true) ->
   wstmt t = true -> nobs Bf1 t = true -> wfcs s -> idle v s c m ->
   sem_bf Bf1 st -> bcode Bf2 (load_code v s) -> wrel Bf1 Bf2 [] [] (wof_s st) (wof v) ->
@@ -380,9 +380,9 @@ Theorem C01_statement_sem_vs_vm : forall Bf1 Bf2 t s s' v c m n env st W1' res,
     | Fail _ => True
     end.
 Proof.
-  intros Bf1 Bf2 t s s' v c m n env st W1' res Hbody Hnob Hw Hn Hwf Hid Hsb Hbc HR HB HM. split.
+  intros Bf1 Bf2 t s s' v c m n env st W1' res Hbody Harity Hnob Hw Hn Hwf Hid Hsb Hbc HR HB HM. split.
   - destruct (eval_stmt Bf1 n t Hw env st W1' res Hsb HM) as (st' & E & HW & _). eauto.
-  - destruct (ssem_related Bf1 Bf2 Hbody Hnob [] [] n t _ _ W1' res Hw Hn HR HM) as (W2' & HM2 & HR').
+  - destruct (ssem_related Bf1 Bf2 Hbody Harity Hnob [] [] n t _ _ W1' res Hw Hn HR HM) as (W2' & HM2 & HR').
     destruct (bytecode_run_stmt Bf2 t s s' v c m n W2' res Hw Hwf Hid Hbc HB HM2) as [_ [_ [k R]]].
     exists k. intros fuel Hf. specialize (R fuel). destruct R as [_ R]. specialize (R Hf). destruct res as [x|err].
     + destruct R as [v' [m' [R [_ [_ [_ [Hg' _]]]]]]]. rewrite R. split; [reflexivity|]. cbn [fst]. rewrite Hg'. exact HR'.
@@ -394,7 +394,7 @@ Print Assumptions C01_statement_sem_vs_vm.
 (* the machine of a session has the built-ins loaded: its own bindings of the built-in names are a Bf
    for which the premises of the session theorem hold *)
 Definition vm_bf : ftab :=
-  {| ft_val := fun nm => gval (v_globals (mc_vm mc_after_first)) nm; ft_body := fun _ => None |}.
+  {| ft_val := fun nm => gval (v_globals (mc_vm mc_after_first)) nm; ft_body := fun _ => None; ft_arity := fun _ => 0 |}.
 
 Example C01_builtin_premises_hold : exists c m, bready vm_bf mc_after_first c m.
 Proof.
@@ -493,16 +493,24 @@ Definition def_lim : node := NAssign (NName "lim") (NInt 10).
 Definition def_sq : node := NAssign (NName "sq") (NFunction [NName "x"] (NBin "*" (NName "x") (NName "x")) 0).
 Definition def_big : node :=
   NAssign (NName "big") (NFunction [NName "v"] (NList [NBin ">" (NName "v") (NName "lim"); NUn "-" (NName "v")]) 0).
+Definition def_mad : node :=
+  NAssign (NName "mad") (NFunction [NName "a"; NName "b"; NName "c"]
+                                   (NBin "+" (NBin "*" (NName "a") (NName "b")) (NIndexAt (NName "c") (NInt 0))) 0).
+Definition def_k : node := NAssign (NName "k") (NFunction [] (NBin "+" (NName "lim") (NInt 1)) 0).
 
-(* the machine after the three definitions *)
-Definition mc_defs : machine := end_of mc_after_first [def_lim; def_sq; def_big].
+(* the machine after the five definitions *)
+Definition mc_defs : machine := end_of mc_after_first [def_lim; def_sq; def_big; def_mad; def_k].
 
 Definition sq_body : node := NBin "*" (NLocal 0 "x") (NLocal 0 "x").
 Definition big_body : node := NList [NBin ">" (NLocal 0 "v") (NName "lim"); NUn "-" (NLocal 0 "v")].
+Definition mad_body : node := NBin "+" (NBin "*" (NLocal 0 "a") (NLocal 1 "b")) (NIndexAt (NLocal 2 "c") (NInt 0)).
+Definition k_body : node := NBin "+" (NName "lim") (NInt 1).
 
 Definition user_bf : ftab :=
   {| ft_val := fun nm => gval (v_globals (mc_vm mc_defs)) nm;
-     ft_body := fun nm => if String.eqb nm "sq" then Some sq_body else if String.eqb nm "big" then Some big_body else None |}.
+     ft_body := fun nm => if String.eqb nm "sq" then Some sq_body else if String.eqb nm "big" then Some big_body
+                          else if String.eqb nm "mad" then Some mad_body else if String.eqb nm "k" then Some k_body else None;
+     ft_arity := fun nm => if String.eqb nm "mad" then 3 else if String.eqb nm "k" then 0 else 1 |}.
 
 (* the flags a function body is compiled with when the definition is a top-level assignment *)
 Definition body_flags : flags :=
@@ -511,27 +519,30 @@ Definition body_flags : flags :=
 
 (* the premises of the session theorem hold on that machine: it is ready, the built-ins and the two user
    functions lie where the table says — established by computation through the sound checkers *)
+Ltac facts := eexists; eexists; eexists; eexists; eexists;
+    (split; [vm_compute; reflexivity|]); (split; [vm_compute; reflexivity|]); (split; [vm_compute; reflexivity|]);
+    (split; [vm_compute; reflexivity|]); (split; [vm_compute; reflexivity|]); (split; [vm_compute; reflexivity|]);
+    (split; [vm_compute; reflexivity|]); (split; [vm_compute; reflexivity|]); (split; [vm_compute; reflexivity|]);
+    (split; [vm_compute; reflexivity|]); (split; [vm_compute; reflexivity|]); split; vm_compute; reflexivity.
+
 Example C01_user_function_premises_hold : exists c m, bready user_bf mc_defs c m.
 Proof.
   destruct (ready_b_sound mc_defs) as [c [m Hr]]; [vm_compute; reflexivity|].
   exists c, m. split; [exact Hr|].
   apply bcode_b_sound; [vm_compute; reflexivity|].
-  intros nm body mo fid Hb Hbody Hbf. cbn [user_bf ft_body] in Hbody.
+  intros nm body mo fid Hb Hbody Hbf. cbn [user_bf ft_body ft_arity] in Hbody |- *.
   destruct (String.eqb_spec nm "sq") as [->|_].
-  - injection Hbody as <-.
-    apply (ufun_facts_sound _ _ _ (emitted (mc_cs (end_of mc_after_first [def_lim])) (New JMP)) body_flags).
-    eexists; eexists; eexists; eexists; eexists.
-    split; [vm_compute; reflexivity|]. split; [vm_compute; reflexivity|]. split; [vm_compute; reflexivity|].
-    split; [vm_compute; reflexivity|]. split; [vm_compute; reflexivity|]. split; [vm_compute; reflexivity|].
-    split; [vm_compute; reflexivity|]. split; [vm_compute; reflexivity|]. split; [vm_compute; reflexivity|].
-    split; [vm_compute; reflexivity|]. split; [vm_compute; reflexivity|]. split; vm_compute; reflexivity.
-  - destruct (String.eqb_spec nm "big") as [->|_]; [|discriminate Hbody]. injection Hbody as <-.
-    apply (ufun_facts_sound _ _ _ (emitted (mc_cs (end_of mc_after_first [def_lim; def_sq])) (New JMP)) body_flags).
-    eexists; eexists; eexists; eexists; eexists.
-    split; [vm_compute; reflexivity|]. split; [vm_compute; reflexivity|]. split; [vm_compute; reflexivity|].
-    split; [vm_compute; reflexivity|]. split; [vm_compute; reflexivity|]. split; [vm_compute; reflexivity|].
-    split; [vm_compute; reflexivity|]. split; [vm_compute; reflexivity|]. split; [vm_compute; reflexivity|].
-    split; [vm_compute; reflexivity|]. split; [vm_compute; reflexivity|]. split; vm_compute; reflexivity.
+  { injection Hbody as <-.
+    apply (ufun_facts_sound _ _ _ _ (emitted (mc_cs (end_of mc_after_first [def_lim])) (New JMP)) body_flags). facts. }
+  destruct (String.eqb_spec nm "big") as [->|_].
+  { injection Hbody as <-.
+    apply (ufun_facts_sound _ _ _ _ (emitted (mc_cs (end_of mc_after_first [def_lim; def_sq])) (New JMP)) body_flags). facts. }
+  destruct (String.eqb_spec nm "mad") as [->|_].
+  { injection Hbody as <-.
+    apply (ufun_facts_sound _ _ _ _ (emitted (mc_cs (end_of mc_after_first [def_lim; def_sq; def_big])) (New JMP)) body_flags). facts. }
+  destruct (String.eqb_spec nm "k") as [->|_]; [|discriminate Hbody].
+  injection Hbody as <-.
+  apply (ufun_facts_sound _ _ _ _ (emitted (mc_cs (end_of mc_after_first [def_lim; def_sq; def_big; def_mad])) (New JMP)) body_flags). facts.
 Qed.
 
 Definition demo_ucalls : list node :=
@@ -547,21 +558,28 @@ Definition demo_ucalls : list node :=
    NCall (NName "sq") [NStr "a"];
    NAssign (NName "lim") (NInt 100);
    NCall (NName "big") [NInt 11];
-   NIfElse (NBin "==" (NName "y") (NInt 9)) (NCall (NName "sq") [NName "y"]) (NCall (NName "toa") [NName "y"])].
+   NIfElse (NBin "==" (NName "y") (NInt 9)) (NCall (NName "sq") [NName "y"]) (NCall (NName "toa") [NName "y"]);
+   NCall (NName "mad") [NInt 2; NName "y"; NList [NInt 5; NInt 6]];
+   NAssign (NName "z") (NCall (NName "k") []);
+   NCall (NName "mad") [NName "z"; NBin "/" (NInt 1) (NInt 0); NList []];
+   NCall (NName "mad") [NInt 1; NInt 1; NList []]].
 
 Example C01_demo_user_calls_are_covered :
   Forall (fun t => wstmt t = true /\ CompileWf.wfb t = true /\ nobs user_bf t = true) demo_ucalls /\
-  (forall nm body, ft_body user_bf nm = Some body -> nobe user_bf body = true /\ lpure1 body = true) /\
+  (forall nm body, ft_body user_bf nm = Some body -> nobe user_bf body = true) /\
   map brief (run_all mc_defs demo_ucalls) =
   [Some (Ok (VInt 49)); Some (Ok (VInt 9)); Some (Ok (VInt 0)); Some (Ok (VInt 3));
    Some (Ok (VArr [VBool false; VInt (-9)])); Some (Ok (VArr [VBool true; VInt (-11)])); Some (Fail ErrType);
-   Some (Ok (VInt 100)); Some (Ok (VArr [VBool false; VInt (-11)])); Some (Ok (VInt 81))] /\
+   Some (Ok (VInt 100)); Some (Ok (VArr [VBool false; VInt (-11)])); Some (Ok (VInt 81));
+   Some (Ok (VInt 23)); Some (Ok (VInt 101)); Some (Fail ErrZeroDiv); Some (Fail ErrIndex)] /\
   firstn 3 (v_out (mc_vm (end_of mc_defs demo_ucalls))) = ["4"; "1"; "0"]%string.
 Proof.
   split; [unfold demo_ucalls; repeat constructor|]. split.
   - intros nm body H. cbn [user_bf ft_body] in H.
-    destruct (String.eqb nm "sq"); [injection H as <-; split; reflexivity|].
-    destruct (String.eqb nm "big"); [injection H as <-; split; reflexivity|discriminate H].
+    destruct (String.eqb nm "sq"); [injection H as <-; reflexivity|].
+    destruct (String.eqb nm "big"); [injection H as <-; reflexivity|].
+    destruct (String.eqb nm "mad"); [injection H as <-; reflexivity|].
+    destruct (String.eqb nm "k"); [injection H as <-; reflexivity|discriminate H].
   - split; vm_compute; reflexivity.
 Qed.
 
